@@ -4,8 +4,9 @@ import Tahoe.Storage.LemmasLeaseBucket
 C24 — read-test-write is atomic and guarded by the write enabler (property theorems).
 
 Model: `Tahoe/Storage/Slot.lean` `rtw` = `StorageServer.slot_testv_and_readv_and_writev`.
-`env.precheck = true` is the REPAIRED server (fixes/C24-precheck.diff); the unchanged tree is
-`env.precheck = false`, for which `all_or_nothing` is FALSE (`all_or_nothing_counterexample`).
+`env.precheck = true` is the server WITH the size pre-check (fixes/C24-precheck.diff — committed to /repo, so this is
+the code under verification); `env.precheck = false` is the tree before that fix, kept for the negation witness:
+there `all_or_nothing` is FALSE (`all_or_nothing_counterexample`).
 
 Coverage of the statement (properties.jsonl C24), clause → theorem(s):
 * "a request either applies all of its writes, to every share it names, or none" → `all_or_nothing` (repaired server,
